@@ -206,6 +206,12 @@ def _shift(I, op, a: VInt, b: VInt):
     k = b.c
     if k < 0:
         I.raise_py("builtins.ValueError", "negative shift count")
+    if not a.fits_bv() and op == ">>" and a.lo is not None and a.lo >= 0 and a.hi is not None and a.hi < (1 << 64) and k < 64:
+        # unsigned 64-bit value: logical shift of its (exact) 64-bit representation
+        r = z3.LShR(a.as_bv(), k)
+        if (a.hi >> k) <= BIG:
+            return VInt(b=r, lo=a.lo >> k, hi=a.hi >> k)
+        return VInt(i=z3.BV2Int(r, False), lo=a.lo >> k, hi=a.hi >> k)
     if not a.fits_bv():
         raise Unsupported("shift of an integer without 64-bit bounds")
     if op == "<<":
